@@ -1,4 +1,4 @@
-(** C03 — executable model of rlib/treap (treap.rs, treap_node.rs).
+(** C03 — executable model of rlib/treap (treap.rs, treap_node.rs), and the three harness items.
 
     [tree := E | Nd l item prio r].  The item operations ([update], [push], [size] of the traits
     [TreapItem]/[TreapItemSized], the user-level [modify], and the projections [elem]/[agg] that the
@@ -391,3 +391,37 @@ Definition iaa_push (x : iaa) (l r : option iaa) : iaa * option iaa * option iaa
   (IAA (ax x) (asm x) (asize x) None 0, option_map (iaa_push_to x) l, option_map (iaa_push_to x) r).
 Definition iaa_mk (v : Z) : iaa := IAA v v 1 None 0.
 Definition amod_act (m : amod) (e : Z) : Z := match m with MAdd c => e + c | MSet c => c end.
+
+(** ---------- item instance 2: positional hash (the aggregate is ORDER-SENSITIVE), lazy add ----------
+    For the subsequence x_0..x_{n-1} of a subtree, all reduced into [0, hP):
+      hsz = n,  hpw = hB^n,  hrp = sum_{i<n} hB^i,  hh = sum_i x_i * hB^(n-1-i).
+    Same formulas and the same reductions as [ItemHash] in harness/crates/c03 ([rem_euclid] = [mod] for a
+    positive modulus); [hx] and [hmd] are not reduced (they stay below 2^24 in the code, where every product is
+    therefore below 2^40).  The modulus is a 16-bit prime on purpose: [mod] on binary [Z] under vm_compute costs
+    (bits of the product) x (bits of the modulus), and order-sensitivity needs only hB <> 1.
+    The aggregate read from a root is the triple (hh, hpw, hrp); the executor prints hh. *)
+Definition hP : Z := 65521.
+Definition hB : Z := 30011.
+Record ihs := IHs { hx : Z; hsz : Z; hpw : Z; hrp : Z; hh : Z; hmd : Z }.
+Definition ihs_osz (o : option ihs) : Z := match o with Some i => hsz i | None => 0 end.
+Definition ihs_opw (o : option ihs) : Z := match o with Some i => hpw i | None => 1 end.
+Definition ihs_orp (o : option ihs) : Z := match o with Some i => hrp i | None => 0 end.
+Definition ihs_oh (o : option ihs) : Z := match o with Some i => hh i | None => 0 end.
+Definition ihs_update (x : ihs) (l r : option ihs) : ihs :=
+  let bp := (hB * ihs_opw r) mod hP in
+  IHs (hx x) (ihs_osz l + 1 + ihs_osz r)
+      ((ihs_opw l * bp) mod hP)
+      ((ihs_orp l * bp + ihs_opw r + ihs_orp r) mod hP)
+      ((ihs_oh l * bp + hx x * ihs_opw r + ihs_oh r) mod hP)
+      (hmd x).
+Definition ihs_modify (c : Z) (x : ihs) : ihs :=
+  IHs (hx x + c) (hsz x) (hpw x) (hrp x) ((hh x + c * hrp x) mod hP) (hmd x + c).
+Definition ihs_push (x : ihs) (l r : option ihs) : ihs * option ihs * option ihs :=
+  (IHs (hx x) (hsz x) (hpw x) (hrp x) (hh x) 0, option_map (ihs_modify (hmd x)) l, option_map (ihs_modify (hmd x)) r).
+Definition ihs_mk (v : Z) : ihs := IHs v 1 (hB mod hP) 1 (v mod hP) 0.
+Definition ihs_agg (x : ihs) : Z * Z * Z := (hh x, hpw x, hrp x).
+(** the fold the aggregate is supposed to equal, computed directly on the list (Horner evaluation, left to
+    right): the positional hash, hB^length, and the positional hash of the all-ones list of that length *)
+Definition hashf (xs : list Z) : Z := fold_left (fun a x => (a * hB + x) mod hP) xs 0.
+Definition hpowf (xs : list Z) : Z := fold_left (fun a _ => (a * hB) mod hP) xs 1.
+Definition hashagg (xs : list Z) : Z * Z * Z := (hashf xs, hpowf xs, hashf (map (fun _ => 1) xs)).
